@@ -245,7 +245,8 @@ class StubGit:
             raise exceptions.SupplyError("cannot rebase")
 
     def head_revision(self, src):
-        return "abc123"
+        # the head of whatever is checked out at the moment of the call
+        return "head-of-%s" % self.current
 
     def is_working_copy(self, src):
         return True
@@ -296,6 +297,10 @@ def repo_update(sl):
         if how == "ret":
             observe("on return the working copy is on the documented best match (branch, else v-tag)", g.current == target)
             observe("never checks out anything but the best match", all(c[1] == target for c in checkouts))
+            # the revision is what the other actors (track preparator, workers) check out and what is reported as track/team revision
+            # (none is recorded when nothing had to be checked out or a rebase was refused: the other actors then use the working copy as it is)
+            observe("a revision recorded for the other actors is the head of the best match, not of what was checked out before",
+                    getattr(r, "revision", None) in (None, "head-of-%s" % target))
         else:
             observe("only a git failure may abort the update, as DataError", isinstance(err, exceptions.DataError))
             observe("a failed update attempted the best match", checkouts and checkouts[-1][1] == target)
